@@ -637,3 +637,133 @@ Proof.
     + destruct H as (chE & -> & HFE). apply (labels_corr _ _ HFE).
     + destruct H as (-> & ->). reflexivity.
 Qed.
+
+(* ====================================================================================== *)
+(* (e) the abstract property theorems, instantiated at map entity_of_tree ws              *)
+(* ====================================================================================== *)
+
+(* generate_loc_link_single, written out: the link goes to the file called like the hit's table *)
+Lemma wdef_single_eq ws a ch id :
+  wdef_single ws a ch (Some id) =
+  match wsearch ws a ch id with
+  | Outside => Outside
+  | Ans None => Ans []
+  | Ans (Some h) => Ans (match find_doc ws (cls_str (fst h)) with
+                         | Some (_, dt) => [(fst dt, a_sel (snd h), a_range (snd h))]
+                         | None => []
+                         end)
+  end.
+Proof.
+  unfold wdef_single, target_of. destruct (wsearch ws a ch id) as [|[h|]]; try reflexivity.
+  destruct (find_doc ws (cls_str (fst h))) as [[j dt]|]; reflexivity.
+Qed.
+
+(* C10_plain on real trees: the declaration the scoping rules make visible (a parameter / local of
+   the method, else a member of the class, else of the nearest ancestor, else of a used entity) is
+   the declaration the tree-level look-up finds -- the same table of the chain (or of the used
+   entity's chain), the same position in it --; the link goes to the file of the declaring entity
+   with the selection range of that declaration; nothing visible: no link *)
+Theorem ws_plain_visible ws a d k mt id : ws_ok ws -> ws_acyclic ws -> distinct_stems ws = true ->
+  nth_error ws a = Some d -> nth_error (method_tables_of false (snd d)) k = Some mt ->
+  exists me path, nth_error (e_methods (ent d)) k = Some me /\ lineage_t ws a = Ans (false, path) /\
+    (find_method (ent d) (me_name me) = Some me ->
+     special (absws ws) id = false -> uses_clean (absws ws) (fst d) id ->
+     let chT := tree_chain ws a mt path in
+     match visible (absws ws) (fst d) (Some (me_name me)) id with
+     | Some (kc, tag) =>
+         exists h y, wsearch ws a chT id = Ans (Some h) /\ dtag y = tag /\
+           (hit_at chT (scope_chain (absws ws) (fst d) (Some (me_name me))) h (kc, y) \/
+            uses_hit ws a (e_uses (ent d)) h (kc, y)) /\
+           wdef_single ws a chT (Some id) =
+             Ans (match find_doc ws kc with
+                  | Some (_, dt) => [(fst dt, a_sel (snd h), a_range (snd h))]
+                  | None => []
+                  end)
+     | None => wsearch ws a chT id = Ans None /\ wdef_single ws a chT (Some id) = Ans []
+     end).
+Proof.
+  intros Hok Hac Hds Hn Hk. destruct (ws_plain_refines ws a d k mt id Hok Hac Hds Hn Hk) as (me & path & Hme & Hl & H).
+  exists me, path. split; [exact Hme|]. split; [exact Hl|]. intros Hfm Hsp Hcl. cbv zeta. specialize (H Hfm).
+  rewrite <- (resolve_plain_spec (absws ws) (fst d) (Some (me_name me)) id Hsp Hcl). unfold resolve_plain.
+  unfold plain_rel in H. rewrite wdef_single_eq.
+  destruct (search_w_class (absws ws) (fst d) (Some (me_name me)) true id) as [[kc y]|]; cbn [option_map to_target fst snd].
+  - destruct H as (h & Hw & Hh). exists h, y. rewrite Hw. split; [reflexivity|]. split; [reflexivity|]. split; [exact Hh|].
+    assert (E : cls_str (fst h) = kc).
+    { destruct Hh as [(k0 & S0 & _ & _ & E & _)|(u & j & dj & pj & _ & _ & _ & (k0 & S0 & _ & _ & E & _))]; exact E. }
+    rewrite E. reflexivity.
+  - rewrite H. auto.
+Qed.
+
+Definition target_rel (chT : list table) (chS : chain) (h : table * asym) (t : target) : Prop :=
+  exists y, dtag y = snd t /\ hit_at chT chS h (fst t, y).
+
+Lemma Forall2_map_targets chT chS l l' : Forall2 (hit_at chT chS) l l' -> Forall2 (target_rel chT chS) l (map to_target l').
+Proof.
+  induction 1 as [|h p l l' Hhp _ IH]; [constructor|]. cbn [map]. constructor; [|exact IH].
+  exists (snd p). unfold to_target. cbn [fst snd]. split; [reflexivity|]. destruct p; exact Hhp.
+Qed.
+
+(* C10_member on real trees: after `<entity>.` (the document's own class: the class-level chain above
+   the method's table; another indexed entity: its chain of root tables) the links are the
+   declarations members_all lists -- one per declaring ancestor, nearest first --, each the same
+   position of the corresponding table *)
+Theorem ws_member_all ws a d k mt en id : ws_ok ws -> ws_acyclic ws -> distinct_stems ws = true ->
+  nth_error ws a = Some d -> nth_error (method_tables_of false (snd d)) k = Some mt ->
+  exists me path, nth_error (e_methods (ent d)) k = Some me /\ lineage_t ws a = Ans (false, path) /\
+    (find_method (ent d) (me_name me) = Some me -> special (absws ws) id = false ->
+     match entity_chain ws a (tree_chain ws a mt path) en with
+     | Ans (Some chE) =>
+         Forall2 (target_rel chE (member_chain (absws ws) (fst d) (Some (me_name me)) en))
+                 (lookup_all chE id) (members_all (absws ws) en id)
+     | Ans None => members_all (absws ws) en id = []
+     | Outside => False
+     end).
+Proof.
+  intros Hok Hac Hds Hn Hk. destruct (ws_entity_chain_refines ws a d k mt en Hok Hac Hds Hn Hk) as (me & path & Hme & Hl & H).
+  exists me, path. split; [exact Hme|]. split; [exact Hl|]. intros Hfm Hsp. specialize (H Hfm). cbv zeta in H.
+  rewrite <- (definition_member_spec (absws ws) (fst d) (Some (me_name me)) en id Hsp). unfold definition_member.
+  destruct (find_doc ws en) as [x|].
+  - destruct H as (chE & -> & HF). apply Forall2_map_targets. apply lookup_all_corr. exact HF.
+  - destruct H as (-> & ->). reflexivity.
+Qed.
+
+(* C11_plain on real trees *)
+Theorem ws_complete_plain_spec ws a d k mt : ws_ok ws -> ws_acyclic ws -> distinct_stems ws = true ->
+  nth_error ws a = Some d -> nth_error (method_tables_of false (snd d)) k = Some mt ->
+  exists me path, nth_error (e_methods (ent d)) k = Some me /\ lineage_t ws a = Ans (false, path) /\
+    (find_method (ent d) (me_name me) = Some me -> lineage_clean (absws ws) (fst d) ->
+     let labels := labels_lhs (tree_chain ws a mt path) in
+     let m := Some (me_name me) in
+     NoDup (map upper labels) /\
+     (forall l, In l labels <->
+        (exists v, find_last v_name l (vars_of (absws ws) (fst d) m) = Some v /\ v_name v = l) \/
+        (find_last v_name l (vars_of (absws ws) (fst d) m) = None /\
+         exists e mem, nearest_member (absws ws) (fst d) l = Some (e, mem) /\ m_name mem = l /\ m_kind mem = MConst))).
+Proof.
+  intros Hok Hac Hds Hn Hk. destruct (ws_complete_refines ws a d k mt Hok Hac Hds Hn Hk) as (me & path & Hme & Hl & H).
+  exists me, path. split; [exact Hme|]. split; [exact Hl|]. intros Hfm Hcl. destruct (H Hfm) as [E _]. cbv zeta. rewrite E.
+  apply (complete_plain_spec (absws ws) (fst d) (Some (me_name me)) Hcl).
+Qed.
+
+(* C11_after_dot on real trees *)
+Theorem ws_complete_after_dot_spec ws a d k mt en : ws_ok ws -> ws_acyclic ws -> distinct_stems ws = true ->
+  nth_error ws a = Some d -> nth_error (method_tables_of false (snd d)) k = Some mt ->
+  exists me path, nth_error (e_methods (ent d)) k = Some me /\ lineage_t ws a = Ans (false, path) /\
+    (find_method (ent d) (me_name me) = Some me ->
+     match entity_chain ws a (tree_chain ws a mt path) en with
+     | Ans (Some chE) =>
+         labels_rhs chE = complete_after_dot (absws ws) en /\
+         (lineage_clean (absws ws) en ->
+          NoDup (map upper (labels_rhs chE)) /\
+          (forall l, In l (labels_rhs chE) <->
+             exists e mem, nearest_member (absws ws) en l = Some (e, mem) /\ m_name mem = l /\ is_fpf mem = true))
+     | Ans None => complete_after_dot (absws ws) en = []
+     | Outside => False
+     end).
+Proof.
+  intros Hok Hac Hds Hn Hk. destruct (ws_complete_refines ws a d k mt Hok Hac Hds Hn Hk) as (me & path & Hme & Hl & H).
+  exists me, path. split; [exact Hme|]. split; [exact Hl|]. intro Hfm. destruct (H Hfm) as [_ E]. specialize (E en).
+  rewrite (completion_member_spec (absws ws) (fst d) (Some (me_name me)) en) in E.
+  destruct (entity_chain ws a (tree_chain ws a mt path) en) as [|[chE|]]; [exact E| |exact E].
+  split; [exact E|]. intro Hcl. rewrite E. apply (complete_after_dot_spec (absws ws) en Hcl).
+Qed.
